@@ -499,38 +499,89 @@ Section KeySetProofs.
     apply Hall. exact Hx.
   Qed.
 
-  Lemma locate_returns_original_g : forall ks s k o,
-    Forall good ks -> good k -> addall empty_g ks = Some s -> In o ks -> keq o k = true -> loc s k = Some o.
-  Proof.
-    intros ks s k o Hgood Hk H Ho Hok.
-    assert (dup_free ks) as HF by (apply (add_all_ok_iff_g ks Hgood); exists s; exact H).
-    rewrite Forall_forall in Hgood.
-    destruct (loc s k) as [o'|] eqn:HL.
-    - destruct (locate_sound_g ks s k o' H HL) as [Ho' Ho'k].
-      pose proof (Hgood o Ho) as Hgo. pose proof (Hgood o' Ho') as Hgo'.
-      assert (keq k o = true) as Hko by (rewrite (keq_sym k o Hk Hgo); exact Hok).
-      assert (keq k o' = true) as Hko' by (rewrite (keq_sym k o' Hk Hgo'); exact Ho'k).
-      f_equal. apply (dup_free_unique ks o' o HF Ho' Ho).
-      + exact (keq_trans o' k o Hgo' Hk Hgo Ho'k Hko).
-      + exact (keq_trans o k o' Hgo Hk Hgo' Hok Hko').
-    - exfalso. destruct (add_all_g_inv ks s H) as [g [-> [HB _]]].
-      simpl in HL. unfold g_locate in HL. rewrite HB in HL.
-      assert (In o (hfilter (khash k) ks)) as Hin.
-      { unfold hfilter. apply filter_In. split; [exact Ho|]. apply N.eqb_eq.
-        exact (hash_compat o k (Hgood o Ho) Hk Hok). }
-      pose proof (find_none _ _ HL o Hin) as Hf. simpl in Hf. rewrite Hok in Hf. discriminate.
-  Qed.
-
+  (* the primitive set stores the list of keys itself and scans it *)
   Lemma locate_p : forall ks s k,
-    addall empty_p ks = Some s -> loc s k = (if existsb (fun o => keq o k) ks then Some k else None).
+    addall empty_p ks = Some s -> loc s k = find (fun o => keq o k) ks.
   Proof. intros ks s k H. rewrite (add_all_p_inv ks s H). reflexivity. Qed.
+
+  Lemma locate_sound_p : forall ks s k o,
+    addall empty_p ks = Some s -> loc s k = Some o -> In o ks /\ keq o k = true.
+  Proof.
+    intros ks s k o H HL. rewrite (locate_p ks s k H) in HL.
+    apply find_some in HL. exact HL.
+  Qed.
 
   Lemma locate_unknown_p : forall ks s k,
     addall empty_p ks = Some s -> (forall o, In o ks -> keq o k = false) -> loc s k = None.
   Proof.
-    intros ks s k H Hall. rewrite (locate_p ks s k H).
-    rewrite (proj2 (existsb_false_forall (fun o => keq o k) ks) Hall). reflexivity.
+    intros ks s k H Hall. rewrite (locate_p ks s k H). apply find_none_iff. exact Hall.
   Qed.
+
+  Lemma locate_sound : forall s0, s0 = empty_g \/ s0 = empty_p ->
+    forall ks s k o, addall s0 ks = Some s -> loc s k = Some o -> In o ks /\ keq o k = true.
+  Proof. intros s0 [->| ->]; [apply locate_sound_g|apply locate_sound_p]. Qed.
+
+  (* an equal stored key is found (generic set: in the bucket of the looked-up key, by hash_compat) *)
+  Lemma locate_finds_g : forall ks s k o,
+    Forall good ks -> good k -> addall empty_g ks = Some s -> In o ks -> keq o k = true -> loc s k <> None.
+  Proof.
+    intros ks s k o Hgood Hk H Ho Hok HL. rewrite Forall_forall in Hgood.
+    destruct (add_all_g_inv ks s H) as [g [-> [HB _]]].
+    simpl in HL. unfold g_locate in HL. rewrite HB in HL.
+    assert (In o (hfilter (khash k) ks)) as Hin.
+    { unfold hfilter. apply filter_In. split; [exact Ho|]. apply N.eqb_eq.
+      exact (hash_compat o k (Hgood o Ho) Hk Hok). }
+    pose proof (find_none _ _ HL o Hin) as Hf. simpl in Hf. rewrite Hok in Hf. discriminate.
+  Qed.
+
+  Lemma locate_finds_p : forall ks s k o,
+    addall empty_p ks = Some s -> In o ks -> keq o k = true -> loc s k <> None.
+  Proof.
+    intros ks s k o H Ho Hok HL. rewrite (locate_p ks s k H) in HL.
+    pose proof (find_none _ _ HL o Ho) as Hf. simpl in Hf. rewrite Hok in Hf. discriminate.
+  Qed.
+
+  (* what is found is the original itself: the stored keys are pairwise different *)
+  Lemma locate_original_of_sound ks s k o :
+    Forall good ks -> good k -> dup_free ks ->
+    (forall o', loc s k = Some o' -> In o' ks /\ keq o' k = true) -> loc s k <> None ->
+    In o ks -> keq o k = true -> loc s k = Some o.
+  Proof.
+    intros Hgood Hk HF Hsound Hfound Ho Hok. rewrite Forall_forall in Hgood.
+    destruct (loc s k) as [o'|] eqn:HL; [|contradiction].
+    destruct (Hsound o' eq_refl) as [Ho' Ho'k].
+    pose proof (Hgood o Ho) as Hgo. pose proof (Hgood o' Ho') as Hgo'.
+    assert (keq k o = true) as Hko by (rewrite (keq_sym k o Hk Hgo); exact Hok).
+    assert (keq k o' = true) as Hko' by (rewrite (keq_sym k o' Hk Hgo'); exact Ho'k).
+    f_equal. apply (dup_free_unique ks o' o HF Ho' Ho).
+    - exact (keq_trans o' k o Hgo' Hk Hgo Ho'k Hko).
+    - exact (keq_trans o k o' Hgo Hk Hgo' Hok Hko').
+  Qed.
+
+  Lemma locate_returns_original_g : forall ks s k o,
+    Forall good ks -> good k -> addall empty_g ks = Some s -> In o ks -> keq o k = true -> loc s k = Some o.
+  Proof.
+    intros ks s k o Hgood Hk H Ho Hok.
+    apply (locate_original_of_sound ks s k o Hgood Hk); [| | |exact Ho|exact Hok].
+    - apply (add_all_ok_iff_g ks Hgood). exists s. exact H.
+    - intros o'. apply (locate_sound_g ks s k o' H).
+    - exact (locate_finds_g ks s k o Hgood Hk H Ho Hok).
+  Qed.
+
+  Lemma locate_returns_original_p : forall ks s k o,
+    Forall good ks -> good k -> addall empty_p ks = Some s -> In o ks -> keq o k = true -> loc s k = Some o.
+  Proof.
+    intros ks s k o Hgood Hk H Ho Hok.
+    apply (locate_original_of_sound ks s k o Hgood Hk); [| | |exact Ho|exact Hok].
+    - apply (add_all_ok_iff_p ks Hgood). exists s. exact H.
+    - intros o'. apply (locate_sound_p ks s k o' H).
+    - exact (locate_finds_p ks s k o H Ho Hok).
+  Qed.
+
+  Lemma locate_returns_original : forall s0, s0 = empty_g \/ s0 = empty_p ->
+    forall ks s k o,
+    Forall good ks -> good k -> addall s0 ks = Some s -> In o ks -> keq o k = true -> loc s k = Some o.
+  Proof. intros s0 [->| ->]; [apply locate_returns_original_g|apply locate_returns_original_p]. Qed.
 
   (* ---- E *)
   Definition reply_nodup (entries : list (bytes * option P)) : Prop :=
@@ -543,24 +594,23 @@ Section KeySetProofs.
     inversion HF as [|x l Hx Hr]; subst. simpl in Hx. rewrite Hx. f_equal. apply IH. exact Hr.
   Qed.
 
-  Definition filed_g (ks : list key) (e : bytes * option P) (kp : key * P) : Prop :=
+  Definition filed (ks : list key) (e : bytes * option P) (kp : key * P) : Prop :=
     snd e = Some (snd kp) /\ In (fst kp) ks /\ exists k, decode_key (fst e) = Some k /\ keq (fst kp) k = true.
 
-  Definition filed_p (ks : list key) (e : bytes * option P) (kp : key * P) : Prop :=
-    snd e = Some (snd kp) /\ decode_key (fst e) = Some (fst kp) /\ exists o, In o ks /\ keq o (fst kp) = true.
-
-  Lemma fill_filed_g_gen ks s : Forall good ks -> addall empty_g ks = Some s ->
+  (* for ANY set whose locate is sound w.r.t. a list ks of good keys *)
+  Lemma fill_filed_gen ks s : Forall good ks ->
+    (forall k o, loc s k = Some o -> In o ks /\ keq o k = true) ->
     forall entries pre m0 m,
-      reply_nodup (pre ++ entries) -> Forall2 (filed_g ks) pre m0 ->
-      fil s m0 entries = inr m -> Forall2 (filed_g ks) (pre ++ entries) m.
+      reply_nodup (pre ++ entries) -> Forall2 (filed ks) pre m0 ->
+      fil s m0 entries = inr m -> Forall2 (filed ks) (pre ++ entries) m.
   Proof.
-    intros Hgood Hs. induction entries as [|[raw op] r IH]; intros pre m0 m Hnd Hpre H.
+    intros Hgood Hsound. induction entries as [|[raw op] r IH]; intros pre m0 m Hnd Hpre H.
     - simpl in H. injection H as <-. rewrite app_nil_r. exact Hpre.
     - simpl in H. unfold locate_raw in H.
       destruct (decode_key raw) as [k|] eqn:Edec; [|discriminate].
       destruct (loc s k) as [o|] eqn:Eloc; [|discriminate].
       destruct op as [p|]; [|discriminate].
-      destruct (locate_sound_g ks s k o Hs Eloc) as [Ho Hok].
+      destruct (Hsound k o Eloc) as [Ho Hok].
       pose proof (decode_good raw k Edec) as Hgk.
       rewrite Forall_forall in Hgood. pose proof (Hgood o Ho) as Hgo.
       rewrite put_fresh in H.
@@ -579,49 +629,25 @@ Section KeySetProofs.
         rewrite H3 in Hneq. discriminate.
   Qed.
 
+  Lemma fill_filed_under_original : forall s0, s0 = empty_g \/ s0 = empty_p ->
+    forall ks s entries m,
+    Forall good ks -> addall s0 ks = Some s -> reply_nodup entries -> fil s [] entries = inr m ->
+    Forall2 (fun e kp => snd e = Some (snd kp) /\ In (fst kp) ks /\ exists k, decode_key (fst e) = Some k /\ keq (fst kp) k = true) entries m.
+  Proof.
+    intros s0 Hs0 ks s entries m Hgood Hs Hnd H.
+    apply (fill_filed_gen ks s Hgood) with (entries := entries) (pre := []) (m0 := []); [|exact Hnd|constructor|exact H].
+    intros k o. apply (locate_sound s0 Hs0 ks s k o Hs).
+  Qed.
+
   Lemma fill_filed_under_original_g : forall ks s entries m,
     Forall good ks -> addall empty_g ks = Some s -> reply_nodup entries -> fil s [] entries = inr m ->
     Forall2 (fun e kp => snd e = Some (snd kp) /\ In (fst kp) ks /\ exists k, decode_key (fst e) = Some k /\ keq (fst kp) k = true) entries m.
-  Proof.
-    intros ks s entries m Hgood Hs Hnd H.
-    exact (fill_filed_g_gen ks s Hgood Hs entries [] [] m Hnd (Forall2_nil _) H).
-  Qed.
+  Proof. apply fill_filed_under_original. left. reflexivity. Qed.
 
-  Lemma fill_filed_p_gen ks s : addall empty_p ks = Some s ->
-    forall entries pre m0 m,
-      reply_nodup (pre ++ entries) -> Forall2 (filed_p ks) pre m0 ->
-      fil s m0 entries = inr m -> Forall2 (filed_p ks) (pre ++ entries) m.
-  Proof.
-    intros Hs. induction entries as [|[raw op] r IH]; intros pre m0 m Hnd Hpre H.
-    - simpl in H. injection H as <-. rewrite app_nil_r. exact Hpre.
-    - simpl in H. unfold locate_raw in H.
-      destruct (decode_key raw) as [k|] eqn:Edec; [|discriminate].
-      rewrite (locate_p ks s k Hs) in H.
-      destruct (existsb (fun o => keq o k) ks) eqn:Eex; [|discriminate].
-      destruct op as [p|]; [|discriminate].
-      rewrite put_fresh in H.
-      + replace (pre ++ (raw, Some p) :: r) with ((pre ++ [(raw, Some p)]) ++ r) in * by (rewrite <- app_assoc; reflexivity).
-        apply (IH (pre ++ [(raw, Some p)]) (m0 ++ [(k, p)]) m Hnd); [|exact H].
-        apply Forall2_app; [exact Hpre|]. constructor; [|constructor].
-        split; [reflexivity|]. split; [exact Edec|].
-        apply existsb_exists in Eex. exact Eex.
-      + apply Forall_forall. intros [k' p'] Hin. simpl.
-        destruct (Forall2_in_r _ _ _ _ Hpre Hin) as [e' [He' [_ [Hdec' _]]]]. simpl in Hdec'.
-        exact (FOP_app_mid _ _ _ _ _ Hnd He' k' k Hdec' Edec).
-  Qed.
-
-  Lemma fill_filed_p_strong : forall ks s entries m,
-    addall empty_p ks = Some s -> reply_nodup entries -> fil s [] entries = inr m ->
-    Forall2 (fun e kp => snd e = Some (snd kp) /\ decode_key (fst e) = Some (fst kp) /\ exists o, In o ks /\ keq o (fst kp) = true) entries m.
-  Proof.
-    intros ks s entries m Hs Hnd H.
-    exact (fill_filed_p_gen ks s Hs entries [] [] m Hnd (Forall2_nil _) H).
-  Qed.
-
-  Lemma fill_filed_p : forall ks s entries m,
+  Lemma fill_filed_under_original_p : forall ks s entries m,
     Forall good ks -> addall empty_p ks = Some s -> reply_nodup entries -> fil s [] entries = inr m ->
-    Forall2 (fun e kp => snd e = Some (snd kp) /\ decode_key (fst e) = Some (fst kp) /\ exists o, In o ks /\ keq o (fst kp) = true) entries m.
-  Proof. intros ks s entries m _. apply fill_filed_p_strong. Qed.
+    Forall2 (fun e kp => snd e = Some (snd kp) /\ In (fst kp) ks /\ exists k, decode_key (fst e) = Some k /\ keq (fst kp) k = true) entries m.
+  Proof. apply fill_filed_under_original. right. reflexivity. Qed.
 
   Lemma fill_locate_none_is_error s raw op k :
     decode_key raw = Some k -> loc s k = None ->
